@@ -431,22 +431,22 @@ impl EventGen for IfElement {
 /// Check if the input events represent a "real" SVG document
 ///
 /// This is determined by checking for the first Start event being `<svg>`
-/// with a valid SVG 'xmlns' attribute. Note there may be *events* such as
+/// with an 'xmlns' attribute. Note there may be *events* such as
 /// processing instructions or comments before the first Start event.
+///
+/// An `<svg>` element which declares a namespace is never svgdx input: as for
+/// a nested `<svg xmlns=...>` element (see `Container`), the value is not
+/// inspected, so that such a root is not passed through as an element and
+/// then post-processed as an svgdx document.
 ///
 /// This does *not* check that the entire doc is valid, and is intended
 /// to be fast in common cases.
 fn is_real_svg(events: &InputList) -> bool {
     for ev in events.iter() {
         if let Ok(el) = SvgElement::try_from(ev.clone()) {
-            // "Real" SVG documents will have an `xmlns` attribute with
-            // the value "http://www.w3.org/2000/svg"
-            if el.name == "svg" {
-                if let Some(val) = el.get_attr("xmlns") {
-                    return val == "http://www.w3.org/2000/svg";
-                }
-            }
-            return false;
+            // "Real" SVG documents will have an `xmlns` attribute (with
+            // the value "http://www.w3.org/2000/svg")
+            return el.name == "svg" && el.get_attr("xmlns").is_some();
         }
     }
     false
